@@ -12,3 +12,4 @@ func TestC12(t *testing.T) { RunProfileTest(t, ProfileC12) }
 func TestC13(t *testing.T) { RunProfileTest(t, ProfileC13) }
 func TestC15(t *testing.T) { RunProfileTest(t, ProfileC15) }
 func TestC18(t *testing.T) { RunProfileTest(t, ProfileC18) }
+func TestC04(t *testing.T) { RunProfileTest(t, ProfileC04) }
